@@ -17,6 +17,7 @@ def run(ctx):
     R2 = ctx.rule('C12.R2', 'on_content_progress: parser results are handled exhaustively; ready only when read_size == content_length; premature / late eof is 400')
     R3 = ctx.rule('C12.R3', 'non-file field size is checked on both the content_partial and the content_ready edge before the filter is told')
     R4 = ctx.rule('C12.R4', 'an unsaved temporary upload file is removed when the file object dies')
+    R6 = ctx.rule('C12.R6', 'urlencoded splitter: for every input up to a bounded length over the classes {&, =, other} (E3, decoder and map insertion summarised) the pairs handed to the form are exactly the &-separated pieces cut at their first =, each decoded from its own bytes, in order; a piece without a name or without = fails the whole parse; prepare() parses the query string as a whole, drops a half-parsed result, parses the cookies and marks a body-less request ready')
     R5 = ctx.rule('C12.R5', 'boundary matcher: failed partial match re-emitted from the boundary text with the matched length; each byte counted or written exactly once')
 
     cs = P.fn(RQ + '::on_content_start')
@@ -299,6 +300,121 @@ def run(ctx):
         nr = [r_ for r_ in cons.returns() if any(x.endswith('::no_room_left') for x in cons.subtree_refs(cons.ret_value(r_)))]
         ctx.check(len(nr) >= 2, R5, 'consume:short-write-reported', 'a failed write to the upload buffer is not reported', cons.where)
 
+
+    # ---------------- R6 urlencoded splitter (E3 with summaries) and prepare()
+    import itertools as _it6
+    from vlib import absint as _ai
+    from vlib.absint import AV as _AV, Arr as _Arr, PV as _PV, Out as _Out, Unsupported as _Uns
+    pfu = P.fn(RQ + '::parse_form_urlencoded')
+
+    def run_form(box_classes):
+        L = len(box_classes)
+        ev = []
+
+        def h_find(it, fn, i, env):
+            a = [it.rvalue(fn, x, env) for x in fn.args(i)]
+            if not (len(a) == 3 and isinstance(a[0], _PV) and isinstance(a[1], _PV) and isinstance(a[2], _AV) and a[2].is_const()):
+                raise _Uns('std::find shape')
+            for j in range(a[0].off, a[1].off):
+                e = it.load(('elem', _PV(a[0].arr, j)))
+                if e.is_const():
+                    if e.lo == a[2].lo:
+                        return _PV(a[0].arr, j)
+                    continue
+                if not (e.lo <= a[2].lo <= e.hi):
+                    continue
+                it.split_on(e.deps)
+            return a[1]
+
+        def h_dec(it, fn, i, env):
+            a = [it.rvalue(fn, x, env) for x in fn.args(i)]
+            if not (len(a) == 2 and isinstance(a[0], _PV) and isinstance(a[1], _PV)):
+                raise _Uns('urldecode shape')
+            if a[0].off < 0 or a[1].off > L or a[0].off > a[1].off:
+                raise _ai.OutOfBounds('urldecode over [%d,%d) of an input of %d bytes' % (a[0].off, a[1].off, L))
+            o = _Out('dec')
+            o.items = [('range', a[0].off, a[1].off)]
+            return o
+
+        class _Pair(object):
+            def __init__(self, a, b):
+                self.a, self.b = a, b
+
+        def h_pair(it, fn, i, env):
+            a = [it.rvalue(fn, x, env) for x in fn.args(i)]
+            return _Pair(a[0], a[1])
+
+        def h_ins(it, fn, i, env):
+            a = [it.rvalue(fn, x, env) for x in fn.args(i)]
+            pr = a[0]
+            if not (hasattr(pr, 'a') and all(isinstance(x, _Out) and x.items and x.items[0][0] == 'range' for x in (pr.a, pr.b))):
+                raise _Uns('insert of something that is not make_pair(decoded name, decoded value)')
+            ev.append((pr.a.items[0][1:], pr.b.items[0][1:]))
+            return _AV.const(0)
+        hooks = {'std::find': h_find, 'cppcms::util::urldecode': h_dec, 'std::make_pair': h_pair, 'std::multimap::insert': h_ins, 'std::map::insert': h_ins}
+        it = _ai.Interp(P, list(box_classes), hooks=hooks)
+        arr = _Arr([it.inbyte(k_) for k_ in range(L)], 'input')
+        r = it.call_fn(pfu, [_PV(arr, 0), _PV(arr, L), _Out('form')])
+        return r, ev
+
+    def ref_form(cls):
+        """cls: string over {'&','=','x'}"""
+        out, p, n = [], 0, len(cls)
+        while p < n:
+            e = cls.find('&', p)
+            e = n if e < 0 else e
+            q_ = cls.find('=', p, e)
+            if q_ < 0 or q_ == p:
+                return False, out
+            out.append(((p, q_), (q_ + 1, e)))
+            p = e + 1
+        return True, out
+    CLS6 = {'&': (38, 38), '=': (61, 61)}
+    OTHERS = [(-128, 37), (39, 60), (62, 127)]
+    bad6, nrun = None, 0
+    for L in range(0, (5 if ctx.tier == 'quick' else 7)):
+        for cls in _it6.product('&=x', repeat=L):
+            for ob in (OTHERS if 'x' in cls else OTHERS[:1]):
+                boxes = [CLS6.get(c_, ob) for c_ in cls]
+                nrun += 1
+                try:
+                    r, ev = run_form(boxes)
+                except (_ai.Split, _ai.OutOfBounds, _Uns) as e_:
+                    bad6 = bad6 or ('input classes %r: %s' % (''.join(cls), e_))
+                    continue
+                wok, wev = ref_form(''.join(cls))
+                if not (isinstance(r, _AV) and r.is_const()) or bool(r.lo) != wok or (wok and ev != wev) or (not wok and ev != wev):
+                    bad6 = bad6 or ('input classes %r: returns %s with pairs (name range, value range) %s; expected %s with %s' % (''.join(cls), getattr(r, 'lo', r), ev, wok, wev))
+    ctx.check(bad6 is None, R6, 'parse_form_urlencoded:all-class-strings-up-to-%d' % (4 if ctx.tier == 'quick' else 6), bad6 or '', pfu.where, detail={'runs': nrun})
+    pr = P.fn(RQ + '::prepare')
+    pc = [i for i in pr.calls() if pr.bcallee(i) == RQ + '::parse_form_urlencoded']
+    ok6 = len(pc) == 1
+    if ok6:
+        S6 = q.symb_with_locals(pr)
+        a = pr.args(pc[0])
+        b_, e_ = S6.lin(a[0]), S6.lin(a[1])
+        qs = any(q.short_of(pr.bcallee(j) or '') == 'env_query_string' for j in q.expr_calls_deep(pr, a[0]))
+        d_ = e_ - b_
+        ok6 = qs and len(d_.t) == 1 and d_.c == 0 and any(pr.callee(j) == 'strlen' for j in q.expr_calls_deep(pr, a[1])) and model.strip_targs(pr.ref_of(a[2]) or '').endswith('request::get_')
+        g_fail = q.call_gate(pr, lambda i: i == pc[0], False)
+        clr = [i for i in pr.calls() if q.short_of(pr.bcallee(i) or '') == 'clear' and pr.obj(i) is not None and model.strip_targs(pr.ref_of(pr.obj(i)) or '').endswith('request::get_')]
+        ok6 = ok6 and len(clr) == 1 and bool(g_fail) and pr.only_through(clr[0], g_fail)
+        reach = pr.reachable_blocks(cut_blocks=q.blocks_of(pr, clr), cut_edges=q.call_gate(pr, lambda i: i == pc[0], True))
+        ok6 = ok6 and pr.exit not in reach
+        ck = [i for i in pr.calls() if pr.bcallee(i) == RQ + '::parse_cookies']
+        clw = [w for w in q.field_writes(pr, '_data::content_length')]
+        rdy = [w for w in q.field_writes(pr, '_data::ready') if pr.const_value(pr.N(w)['ch'][1]) == 1]
+        g_zero = pr.gate_edges(lambda atom, pol: pr.N(atom)['k'] == 'BinaryOperator' and pr.N(atom).get('op') in ('==', '!=') and model.strip_targs(pr.ref_of(pr.N(atom)['ch'][0]) or '').endswith('_data::content_length') and
+                               pr.const_value(pr.N(atom)['ch'][1]) == 0 and ((pr.N(atom)['op'] == '==') == pol))
+        ok6 = ok6 and len(ck) == 1 and q.always_before_exit(pr, ck) and len(clw) == 1 and any(q.short_of(pr.bcallee(j) or '') == 'env_content_length' for j in pr.calls(clw[0])) and q.always_before_exit(pr, clw) and \
+            len(rdy) == 1 and bool(g_zero) and pr.only_through(rdy[0], g_zero) and q.before(pr, clw[0], rdy[0])
+        if ok6:
+            g_nz = pr.gate_edges(lambda atom, pol: pr.N(atom)['k'] == 'BinaryOperator' and pr.N(atom).get('op') in ('==', '!=') and model.strip_targs(pr.ref_of(pr.N(atom)['ch'][0]) or '').endswith('_data::content_length') and
+                                 pr.const_value(pr.N(atom)['ch'][1]) == 0 and ((pr.N(atom)['op'] == '!=') == pol))
+            reach = pr.reachable_blocks(cut_blocks=q.blocks_of(pr, rdy), cut_edges=g_nz)
+            ok6 = pr.exit not in reach
+    ctx.check(ok6, R6, 'prepare:query-string-parsed-whole:failure-drops-it:cookies:ready-iff-no-body', 'prepare() does not parse the whole query string into the GET form (dropping a failed parse), parse the cookies, take the content length from the connection and mark a body-less request ready', pr.where)
+    ctx.floor(R6, 2)
     ctx.floor(R1, 6)
     ctx.floor(R2, 12)
     ctx.floor(R3, 3)
